@@ -280,3 +280,18 @@ Theorem C15_via_model_refuted_graph :
     resolve w' m' <> normalize xrender (resolve xworld xgraph).
 Proof. exact ex_via_model_graph. Qed.
 Print Assumptions C15_via_model_refuted_graph.
+
+(* KF-C15-5 (candidate)  C15_locks_free speaks about the contexts whose state pickling discards (PicklableLock).
+   IdentManager is pickled like any object: a LockedMachine pickled from inside its own contexts (a callback)
+   yields a copy whose IdentManager still names the pickling thread as owner, while its lock is free: events of
+   that thread on the copy enter no context.  (The harness reads off /repo whether IdentManager resets on pickling
+   and encodes it in [lo_picklable]; with a resetting IdentManager the case falls under C15_locks_free.) *)
+Theorem C15_ident_owner_kept :
+  wf xinside = true /\ fresh (xplus 100) (xplus 100) xiworld xinside = true /\ guard xinside = true /\
+  exists w' m', snapshot xrender (xplus 100) (xplus 100) xiworld xinside = Some (w', m') /\
+    m_mctx m' = [100; 101] /\
+    lookup (w_locks w') 100 = Some (mkLobj 0 false true) /\
+    lookup (w_locks w') 101 = Some (mkLobj 1 true false) /\
+    map pm_ctx (pv_models (resolve w' m')) = [[Some (mkLobj 0 false true); Some (mkLobj 1 true false)]].
+Proof. exact ex_ident_kept. Qed.
+Print Assumptions C15_ident_owner_kept.
